@@ -20,7 +20,7 @@ def errName : PyErr → String
   | .unsupported => "unsupported"
 
 def showNum (exact : Bool) : PyNum → String
-  | .int i => "I " ++ toString i
+  | .int i => "I " ++ toString i ++ (if exact then " x" else " ~")
   | .flt q => "F " ++ renderRat q ++ (if exact && PyNum.ratIsDouble q then " x" else " ~")
 
 /-- result of evaluating an expression the way `Term.compute_value` / `compute_function` do -/
